@@ -382,6 +382,7 @@ fn generate(corpus: &Corpus, tier: Tier, run: u64, rng: &mut Rng) -> Option<Case
             resets: false,
             continue_max: rng.chance(1, 3),
             jump_functions: false,
+        eval_any_knot: false,
         };
         gen_script(rng, &prog, &cfg)
     } else {
